@@ -714,7 +714,17 @@ class NativeH:
         return float(x).is_integer()
 
     def consume(self, make_generator, body):
-        for v in make_generator():
+        gen = make_generator()
+        if hasattr(gen, "__aiter__"):
+            # an asynchronous generator that never really waits (file input): driven by hand
+            import asyncio
+
+            async def drive():
+                async for v in gen:
+                    body(v)
+            asyncio.run(drive())
+            return
+        for v in gen:
             body(v)
 
     def float_bits(self, v, n):
